@@ -222,6 +222,11 @@ def op_transformer(ctx, a):
         res = getattr(trf, name)(n)
     else:
         res = getattr(trf, name)(n, keep=keep)
+        # "reusing the same description": an exemption list that describes the same elements (equal frozen value
+        # objects, e.g. taken from a second load of the network) must select the same branches as the objects themselves
+        by_value = getattr(trf, name)(n, keep=[copy.copy(e) for e in keep])
+        out = cnet(res)
+        return {'network': out, '__invariants__': [['exemption-list-matched-by-value', canon(cnet(by_value)) == canon(out)]]}
     return cnet(res)
 
 
